@@ -87,6 +87,7 @@ class Supervisor:
         self.hangs_resolved = 0
         self.harness_errors = []
         self.case_timeout = spec.get("case_timeout", {}).get(tier, 120)
+        self.alone_timeout = self.case_timeout * spec.get("alone_factor", 10)
         self.env = dict(os.environ)
         self.env.update(SAN_ENV)
         self.env["VERIF_TMP"] = os.path.join(vbuild.CACHE, "tmp")
@@ -233,7 +234,7 @@ class Supervisor:
 
     def investigate(self, case, timed_out, rc, range_start=None):
         if timed_out:
-            rc2, out, err, to = self.run_single(case, self.case_timeout * 10)
+            rc2, out, err, to = self.run_single(case, self.alone_timeout)
             if not to and rc2 == 0:
                 with self.lock:
                     self.hangs_resolved += 1
@@ -242,11 +243,11 @@ class Supervisor:
             if to:
                 stage = last_stage(out)
                 with self.lock:
-                    self.add_viol(self.prop, "hang:" + stage, "case %d did not finish within %ds (alone)" % (case, self.case_timeout * 10),
+                    self.add_viol(self.prop, "hang:" + stage, "case %d did not finish within %ds (alone)" % (case, self.alone_timeout),
                                   "", case)
                 return
         else:
-            rc2, out, err, to = self.run_single(case, self.case_timeout * 10)
+            rc2, out, err, to = self.run_single(case, self.alone_timeout)
             if to:
                 with self.lock:
                     self.add_viol(self.prop, "hang:" + last_stage(out), "case %d hung on re-run" % case, "", case)
@@ -255,7 +256,7 @@ class Supervisor:
             # Not reproducible alone: the failure may depend on what ran earlier in the same process.  Re-run the
             # cases of the batch up to this one in one process.
             if range_start is not None and range_start < case:
-                rc3, out3, err3, to3 = self.run_span(range_start, case, self.case_timeout * 10)
+                rc3, out3, err3, to3 = self.run_span(range_start, case, self.alone_timeout)
                 if rc3 != 0 and not to3:
                     key, summary = classify_crash(err3, rc3)
                     with self.lock:
@@ -273,11 +274,15 @@ class Supervisor:
             # a stack-overflow report is sometimes cut short (the unwinder itself runs out of stack): try again
             if key != "asan:stack-overflow":
                 break
-            rc3, out3, err3, to3 = self.run_single(case, self.case_timeout * 10)
+            rc3, out3, err3, to3 = self.run_single(case, self.alone_timeout)
             if rc3 != 0 and not to3:
                 key, summary = classify_crash(err3, rc3)
                 out = out3
         stage = last_stage(out)
+        if "@" not in key:
+            # no libcellml frame to tell crash sites apart (uncaught exception, recursion inside the standard library):
+            # the stage the driver was in is the next best thing (digits dropped, they number cases/models)
+            key += "@stage:" + re.sub(r"\d+", "N", stage)
         with self.lock:
             self.crashes += 1
             self.add_viol(self.spec.get("crash_prop", self.prop), "crash:" + key,
